@@ -362,9 +362,9 @@ func vc29Do(n *vgcNode, index string, r vc29Req) ([]vc29Sub, []vc29SubOut, error
 		if err != nil {
 			return nil, nil, err
 		}
-		unchecked := vkit.Open("DC4")
+		unchecked := vkit.Open("DC5")
 		if unchecked {
-			vkit.Excluded("DC4")
+			vkit.Excluded("DC5")
 		}
 		return []vc29Sub{{Obj: "v0", Kind: "eqV", Val: r.Val}, {Obj: "v1", Kind: "eqV", Val: r.Val}},
 			[]vc29SubOut{{Mask: m[0], Unchecked: unchecked}, {Mask: m[1], Unchecked: unchecked}}, nil
@@ -501,7 +501,7 @@ func TestVerifC29_API(t *testing.T) {
 			t.Fatalf("setup: %v", err)
 		}
 		if maxOpN > 0 {
-			for _, f := range vc09AllFragments(node.Server.holder) {
+			for _, f := range vgcAllFragments(node.Server.holder) {
 				if f.index == index {
 					f.mu.Lock()
 					f.MaxOpN = maxOpN
